@@ -874,13 +874,13 @@ func (ex *Exec) exec(fr *frame, ins ssa.Instruction) {
 		}
 		fr.env[i] = ex.makeSlice(i.Type().Underlying().(*types.Slice).Elem(), int(n), int(c))
 	case *ssa.MakeMap:
-		fr.env[i] = &MapV{m: map[string]Value{}}
+		fr.env[i] = &MapV{m: map[interface{}]Value{}}
 	case *ssa.MapUpdate:
 		m := ex.get(fr, i.Map).(*MapV)
 		if m == nil {
 			panic(&GoPanic{Kind: "nil", Msg: "assignment to entry in nil map", Pos: ex.pos2s(i.Pos())})
 		}
-		k := ex.get(fr, i.Key).(string)
+		k := ex.mapKey(ex.get(fr, i.Key))
 		if _, ok := m.m[k]; !ok {
 			m.keys = append(m.keys, k)
 		}
@@ -889,7 +889,7 @@ func (ex *Exec) exec(fr *frame, ins ssa.Instruction) {
 		x := ex.get(fr, i.X)
 		switch m := x.(type) {
 		case *MapV:
-			k := ex.get(fr, i.Index).(string)
+			k := ex.mapKey(ex.get(fr, i.Index))
 			var v Value
 			ok := false
 			if m != nil {
@@ -917,6 +917,19 @@ func (ex *Exec) exec(fr *frame, ins ssa.Instruction) {
 	default:
 		panic(&GoPanic{Kind: "unsupported", Msg: fmt.Sprintf("instruction %T in %s", ins, fr.fn.String()), Pos: ex.pos2s(ins.Pos())})
 	}
+}
+
+func (ex *Exec) mapKey(v Value) interface{} {
+	v = ex.normInt(v)
+	switch k := v.(type) {
+	case string, int64, bool:
+		return k
+	case *Cell:
+		return k
+	case *Term:
+		return ex.concretise(k, "map key")
+	}
+	panic(&GoPanic{Kind: "unsupported", Msg: fmt.Sprintf("map key of type %T", v)})
 }
 
 func (ex *Exec) makeSlice(elem types.Type, n, c int) SliceV {
